@@ -186,6 +186,8 @@ def gen_spec(rng):
         old_b = spec["df"]["cols"][b]["name"]
         new_b = rng.choice([spec["df"]["cols"][a]["name"] + " ", " " + spec["df"]["cols"][a]["name"],
                             spec["df"]["cols"][a]["name"].lower()])
+        if new_b in {c["name"] for c in spec["df"]["cols"]}:
+            new_b = old_b           # (the general generator already made such a sibling: names stay unique)
         spec["df"]["cols"][b]["name"] = new_b
         for k in ("page_by", "subline_by", "group_by"):
             if isinstance(spec["body"].get(k), list):
